@@ -62,11 +62,33 @@ def rec_exact(seed):
     h, w = rng.randint(7, 15), rng.randint(7, 15)
     y, x = np.mgrid[:h, :w]
     if name == 'quadratic_exact':
+        variant = rng.choice(['plain', 'plain', 'search_box', 'six_points'])
         x0, y0 = rng.uniform(2.6, w - 3.6), rng.uniform(2.6, h - 3.6)
+        if variant == 'search_box':          # the vertex near the lower-left corner: the search box around the guess is clipped there
+            x0, y0 = rng.uniform(1.1, 2.4), rng.uniform(1.1, h - 3.6)
+            if rng.random() < 0.5:
+                x0, y0 = rng.uniform(1.1, w - 3.6), rng.uniform(1.1, 2.4)
         a, b = rng.uniform(0.5, 3), rng.uniform(0.5, 3)
         c = rng.uniform(-1, 1) * np.sqrt(a * b)
         data = 100.0 - a * (x - x0) ** 2 - b * (y - y0) ** 2 - c * (x - x0) * (y - y0)
-        res = call(funcs()['quadratic'], data)
+        fq = funcs()['quadratic']
+        if variant == 'search_box':
+            fn = lambda d, mask=None: fq(d, xpeak=int(round(x0)) + rng.choice([-1, 0, 1]), ypeak=int(round(y0)) + rng.choice([-1, 0, 1]), fit_boxsize=3,  # noqa
+                                         search_boxsize=rng.choice([3, 5]), mask=mask)
+            res = call(fn, data)
+        elif variant == 'six_points':
+            # a 3x3 fit box with three masked corners: exactly six points, which still determine the six coefficients
+            px, py = int(round(x0)), int(round(y0))
+            mk = np.zeros(data.shape, dtype=bool)
+            for dx, dy in rng.sample([(-1, -1), (-1, 1), (1, -1), (1, 1)], 3):
+                mk[py + dy, px + dx] = True
+            if rng.random() < 0.5:
+                data = data.copy(); data[mk] = rng.choice([np.nan, 1e4]); use_mask = mk if not np.isnan(data[mk][0]) else None
+            else:
+                use_mask = mk
+            res = call(lambda d, mask=None: fq(d, fit_boxsize=3, mask=use_mask), data)
+        else:
+            res = call(fq, data)
         return {'id': seed, 'kind': 'exact', 'func': name, 'isnan': res is None, 'x': fx(res[0]) if res else 0, 'y': fx(res[1]) if res else 0,
                 'tx': fx(x0), 'ty': fx(y0), 'half': False}
     half = rng.random() < 0.5      # for centroid_quadratic a half-integer centre means tied maxima (known finding)
